@@ -12,1169 +12,401 @@ Definition show_fres (r : fres) : string :=
   end.
 Definition check (rs : list rune) : string := digest (show_fres (format_res rs)).
 Definition full (rs : list rune) : string := show_fres (format_res rs).
-Eval vm_compute in ("<<<M968>>>" ++ check (runes_of_ascii "packet float  { repeat matchKey , char[] // " ++ [128512]%N ++ runes_of_ascii " emoji
-repeatCount
-`{ , }`
-, char[	00] a1 , char[] roots`" ++ [28040; 24687; 31867; 22411]%N ++ runes_of_ascii "` ,@rightPad
-    ( '0') repeatCount ,match
-MetaDataX as tag { ""`tick`"":
-tag , [	""it's"" ,42
-] :asx
-    // packet A { u8 x, }
-    , ""a	b"" :As 65535 : calculatedFrom 007:
-stringy , 007: Packet // " ++ [128512]%N ++ runes_of_ascii " emoji
-,} ,char[// " ++ [27880; 37322]%N ++ runes_of_ascii "
-0]//	t
-i8i8
-`a\`,
-} root packet chars { @calculatedFrom( ""packet""
-) // " ++ [27880; 37322]%N ++ runes_of_ascii "
-i64_ string_ , match Pad // " ++ [128512]%N ++ runes_of_ascii " emoji
-as MetaDataX {
-    0123456789  :repeatCount ,	[
-""" ++ [128512]%N ++ runes_of_ascii """] :a1  ,[ """ ++ [233]%N ++ runes_of_ascii "t" ++ [233]%N ++ runes_of_ascii """ ,
-7
-, //	t
-""x y""	, 00	]
+Eval vm_compute in ("<<<M279>>>" ++ check (runes_of_ascii "//x
+root packet
+// `tick` ""quote"" 'q'
+// `tick` ""quote"" 'q'
+i8i8 { u128{ repeat lengthOf Foo //
+`u8 x,`
+,MetaDataX	falsey
+`two words` ,Pad{	u8 a1 @lengthOf( leftPad )
+, }
+    , int @calculatedFrom( // " ++ [128512]%N ++ runes_of_ascii " emoji
+""a\\""
+    ) `
+`
+    ,	}
+    , Header
+Logon , match rootA// c
+as
+    BodyLength
+    // " ++ [27880; 37322]%N ++ runes_of_ascii "
+    { """ ++ [28040; 24687]%N ++ runes_of_ascii """ :	Pad [ """ ++ [233]%N ++ runes_of_ascii "t" ++ [233]%N ++ runes_of_ascii """
+    ,
+1
+] : _x , }, options1 `crlf
+line` , repeat u	{ match	i8i8 as falsey
+{// `tick` ""quote"" 'q'
+[ 42 , 4294967296 ]: x_y_z ,42
 :
-//
-// a // b
-int, } ,repeat
-Foo`say ""hi""`,@lengthOf(	As
-) u32 leftPad
-    @lengthOf( zchar	)// a // b
-,
-    // " ++ [128512]%N ++ runes_of_ascii " emoji
-    }// c
-packet u128	{@calculatedFrom(
-""`tick`""
-    // packet A { u8 x, }
-    ) float Z9_ ``
-,string packetx ,
-// @lengthOf(
-// packet A { u8 x, }
-@leftPad ( '\x00'
-)
-uint8
-metadata , @leftPad
-()
-    uint32 a1 `two words` ,
-@tag(
-    0123456789
-// packet A { u8 x, }
-// packet A { u8 x, }
-)  repeat zchar[ 42	] pack`two words` , repeat stringy
-    `line1
-line2`
-    , uint8x `" ++ [233]%N ++ runes_of_ascii "`, falsey `say ""hi""` ,
-} packet a1{ uint16
-float , @lengthOf( string_)	char[ 0123456789 ] BodyLength @lengthOf( charz /// triple
-)
-    // `tick` ""quote"" 'q'
-    `say ""hi""`, @rightPad	( '\x00'
-)	Z9_ @lengthOf(zchar
-)  , calculatedFrom @lengthOf(pack
-)
-`tab	here`
-    ,
-    @lengthOf( MetaDataX)@calculatedFrom( ""abc"" )
-@calculatedFrom( ""a\\"" ) match
-falsey //
-as
-body  {// " ++ [27880; 37322]%N ++ runes_of_ascii "
-""a\""b"" : o //x
-,255:uint8x , [ // `tick` ""quote"" 'q'
-65535 ]: BodyLength } , /// triple
-char[]
-x_y_z
-,// trailing space 
-@tag(
-// trailing space 
-/// triple
-0
-)
-int16	x `crlf
-line`
-,match Foo as zchar {""" ++ [233]%N ++ runes_of_ascii "t" ++ [233]%N ++ runes_of_ascii """	:
-u128 , }, @lengthOf(	x_y_z) As @calculatedFrom(""packet""),repeat
-Header{string_ `{ , }` , match	chars as
-    uint8x {
-""it's"" : lengthOf ,[ ""\n""  ,	3 , ""CRC32""
-,// a // b
-10
-    // " ++ [27880; 37322]%N ++ runes_of_ascii "
-    , """ ++ [28040; 24687]%N ++ runes_of_ascii """ ]
-: falsey } ,
-repeat char[] o
-`
-`
-    ,
-i32 len@calculatedFrom(""" ++ [233]%N ++ runes_of_ascii "t" ++ [233]%N ++ runes_of_ascii """ ) `" ++ [28040; 24687; 31867; 22411]%N ++ runes_of_ascii "` ,
-    } // trailing space 
-, // " ++ [27880; 37322]%N ++ runes_of_ascii "
-}
-")).
-Eval vm_compute in ("<<<M4020>>>" ++ check (runes_of_ascii "
-packet// " ++ [27880; 37322]%N ++ runes_of_ascii "
-	o	//x
-    {@tag(
-	0
-
-)match
-    leftPad
-	as  // @lengthOf(
-    	metadata
-	{
-	1
-:calculatedFrom
-
-,
-	7
-:i64_  , ""it's""
-: i64_ 0123456789
-: repeatCount ,
-    0 
-	    // packet A { u8 x, }
-	  :
-	Foo }
-,  lengthOf
-{ A	`doc` 
-, }
-, char[
-    3 ]
-
-matchKey
-`{ , }` ,
-leftPad	// `tick` ""quote"" 'q'
-{
-
-    repeat 
-	    // a // b
-u8 
-options1 
-,
-body@calculatedFrom( """ ++ [128512]%N ++ runes_of_ascii """
-)	, 
-zchar
-	{  // `tick` ""quote"" 'q'
-	u64 Logon @lengthOf(u8x
-
-    ) ,  char[
-    007 ]packetx	@lengthOf(
-
-zchar
-
-    )`
-`
-
-    ,
-}
-	,repeat 
-metadata 
-x  ,
-
-    } , u32  repeatCount	,
-@tag( 
-    // c
-10 ) 
-@lengthOf(T
-	)u16
-
-repeatCount
-`say ""hi""`, 	 /// triple
-    repeat
-
-u128 {
-//
-// packet A { u8 x, }
-	zchar[
-	4294967296
-	]BodyLength
-,	}
-	, 
-i32 
-x
-`doc`  , 
-}
-packet MetaDataX
-
-    {// a // b
-      @tag( 	 // c
-  7)
-
-repeat lengthOf
-        // a // b
-	//
-
-,
-}
-    root packet
-As 
-{
-
-    @lengthOf( 
-lengthOf)  match 
-_x	as
-
-    T {
-
-""packet"" :
-
-string_ , 3
-	: 	 // @lengthOf(
-	BodyLength
-, 
-""" ++ [128512]%N ++ runes_of_ascii """// trailing space 
-    :
-    i64_ ,
-
-    0
-:lengthOf  // trailing space 
-
-, 	 /// triple
-
-7 :
-
-Logon 
-} ,Z9_	@calculatedFrom(
-    ""\" ++ [233]%N ++ runes_of_ascii """ //	t
-    ) ,float32 int
-@lengthOf(msg_type)
-`// not a comment`
-    // packet A { u8 x, }
-    	// `tick` ""quote"" 'q'
-,
-
-char[]
-
-    A
-@calculatedFrom(""\n""
-)	,
-
-@tag(
-4294967296
-
-) i8i8
-
-{
-uint32 
-u8x , } ,zchar[
-00
+    float ,
+// `tick` ""quote"" 'q'
 // c
-
-// c
-	]uint8x
-, 
-repeat
-msg_type string_ ,repeat
-
-zchar[ 007 	 //x
-]
-
-Pad  // " ++ [27880; 37322]%N ++ runes_of_ascii "
-	`doc`  ,
-
-    match	rootA
-
-as
-stringy  {	007 :
-    leftPad ,
-
-[
-""" ++ [233]%N ++ runes_of_ascii "t" ++ [233]%N ++ runes_of_ascii """
-    ,	7
-
-    ]
-:  x  }
-, }")).
-Eval vm_compute in ("<<<M4085>>>" ++ check (runes_of_ascii "options {
-    msg_type = ""{,}"";
-    asx = true;
-    trueish = ""// no comment""
-    Pad = ""\n"";
-    metadata = uint64;
-}
-
-root packet int {
-    @tag(0123456789)
-    @tag(00)
-    @calculatedFrom(""packet"")
-    zchar[4294967296] leftPad `line1
-        line2`,
-    @calculatedFrom(""x y"")
-    falsey @calculatedFrom(""x y""),
-    repeat uint8 Packet,
-    @tag(4294967296)
-    u8x,
-    repeat char[42] Logon `it's`,
-    int16 falsey @calculatedFrom(""it's""),
-    msg_type @lengthOf(leftPad) `" ++ [28040; 24687; 31867; 22411]%N ++ runes_of_ascii "`,
-    match string_ as charz {
-        //
-        ""it's"" : Foo,
-        0123456789 : calculatedFrom,
-        ""// no comment"" : T,
-        [
-            ""// no comment"", 65535, ""a\\"", ""abc"", 007,
-            ""// no comment"", 4294967296
-        ] : Z9_,
-    },
-    float64 charz @lengthOf(Z9_) `a\`,
-}
-
-packet a1 {
-}
-
-packet T {
-}
-
-packet i64_ {
-    repeat zchar[65535] Logon,
-    @calculatedFrom(""CRC32"")
-    repeat string stringy `crlf
-        line`,
-    repeat char[007] leftPad,
-    @calculatedFrom(""abc"")
-    string calculatedFrom `two words`,
-    len {
-        // `tick` ""quote"" 'q'
-        float64 lengthOf `" ++ [28040; 24687; 31867; 22411]%N ++ runes_of_ascii "`,
-    },
-    A @calculatedFrom(""abc"") `line1
-        line2`,
-    zchar[10] charz `" ++ [28040; 24687; 31867; 22411]%N ++ runes_of_ascii "`,
-    repeat Packet,
-    // packet A { u8 x, }
-    string As @lengthOf(roots),
-    @tag(7)
-    Packet chars,
-    //x
-    // trailing space 
-}")).
-Eval vm_compute in ("<<<M531>>>" ++ check (runes_of_ascii "root packet
-    uint8x// packet A { u8 x, }
-{ match trueish
-    as body
-{
-[
-    007, ""packet"" ] : metadata
-42 : metadata , }
-    , }
-    MetaData roots{ i64 MetaDataX`a\` // a // b
-,
-    uint8	float,char[42
-]
-    u8x , i64 a1 // @lengthOf(
-,
-o Pad`line1
-line2` ,	}
-options
-{ Foo
-= true //	t
-;
-f32a
-    =""a	b"" ; falsey =
-true ; } packet //x
-float { @calculatedFrom(	""packet"" )repeat
-    len , lengthOf
-BodyLength ,@lengthOf(charz ) // @lengthOf(
-@calculatedFrom( ""{,}"") A
-,@tag( 0123456789
-//
-// @lengthOf(
-)
-crc,
-/// triple
-//x
-zchar[  1] leftPad`it's` , // @lengthOf(
-@lengthOf( metadata ) //x
-@lengthOf(matchKey)// trailing space 
-@lengthOf( As
-    )int16 packetx `// not a comment` //x
-, A // " ++ [128512]%N ++ runes_of_ascii " emoji
-string_ `{ , }` ,} root
-    packet
-    roots { @tag(
-4294967296)
-@lengthOf(
-chars  ) repeat tag
-//
-// packet A { u8 x, }
-`// not a comment` ,//	t
-@leftPad
-    (//	t
-' ' )uint16 falsey `say ""hi""` , @tag( 10
-    ) leftPad	{
-    int8	len `a\`, // a // b
-f32a i8i8 , // " ++ [128512]%N ++ runes_of_ascii " emoji
-u16 i8i8 ,  uint8
-options1
-, }
-    ,
-    @lengthOf( falsey )@tag(
-255
-) // @lengthOf(
-@leftPad (
-' ' // " ++ [27880; 37322]%N ++ runes_of_ascii "
-)
-    repeat float
-Foo , zchar[ 3 ]  rootA `tab	here`, @lengthOf(
-    uint8x )
-packetx Z9_,
-    @tag(7) // " ++ [27880; 37322]%N ++ runes_of_ascii "
-repeat char[// " ++ [128512]%N ++ runes_of_ascii " emoji
-10]calculatedFrom
-, }")).
-Eval vm_compute in ("<<<M3895>>>" ++ check (runes_of_ascii "packet repeatCount {
-    match falsey as string_ {
-        65535 : crc,
-        [007, 65535, 65535] : i8i8,
-    },
-    @lengthOf(float)
-    T {
-        // " ++ [128512]%N ++ runes_of_ascii " emoji
-        char[] Packet @lengthOf(trueish),
-    },
-    uint64 Logon `doc`,
-    zchar[0] trueish @calculatedFrom(""// no comment""),
-    @lengthOf(a1)
-    repeat rootA i64_ `// not a comment`,
-    u64 u,
-}
-
-packet i64_ {
-    //
-    @rightPad(' ')
-    f64 float,// `tick` ""quote"" 'q'
-    match rootA as i8i8 {
-        [""\n"", 007, """ ++ [128512]%N ++ runes_of_ascii """, """ ++ [128512]%N ++ runes_of_ascii """] : lengthOf,
-    },
-    i16 Packet,
-    int16 lengthOf @calculatedFrom(""" ++ [28040; 24687]%N ++ runes_of_ascii """) `line1
-        line2`,
-    @calculatedFrom("""")
-    @calculatedFrom(""it's"")
-    zchar[007] As,
-    char[] i8i8 @lengthOf(zchar),
-    u16 packetx @lengthOf(falsey),
-    repeat len {
-        // c
-        u32 lengthOf,
-    },
-    match MetaDataX as u128 {
-        1 : u,
-        ""x y"" : u,
-        255 : i64_,
-        ""x y"" : falsey,
-        [""1"", 1] : repeatCount,
-        // packet A { u8 x, }
-    },
-}
-
-options {
-    asx = uint8;
-    matchKey = true
-    i64_ = false
-    Logon = char[];
-    A = 00
-}
-
-packet Packet {
-    // packet A { u8 x, }
-    uint32 float `it's`,
-}")).
-Eval vm_compute in ("<<<M1115>>>" ++ check (runes_of_ascii "packet tag { zchar[
-65535]
-    T
-, match
-    i64_
-    as chars { 007 :asx	,
-    [ ""a\""b""
-,  ""a\""b"" ,
-    7 // a // b
-,0,
-    ""\" ++ [233]%N ++ runes_of_ascii """ , ""abc"", ""x y"" // trailing space 
-, 0
-] : u8x 7
-    :// c
-leftPad 7
-    : body
-    , ""`tick`""
-:// `tick` ""quote"" 'q'
-lengthOf ,} ,
-@leftPad(
-)
-@rightPad(
-)
-repeat
-    //
-    i64_ charz
-, repeat //	t
-charz u8x ,  repeat float32 uint8x , } packet falsey { } packet // trailing space 
-Z9_ { repeat u { int32 i8i8 , // " ++ [128512]%N ++ runes_of_ascii " emoji
-repeat BodyLength { match string_ as charz{""\" ++ [233]%N ++ runes_of_ascii """
-//
-/// triple
-:  As}, //x
-i64_
-    @calculatedFrom( ""packet"" ) ,} ,
-    //x
-    } ,asx {//x
-char[4294967296]
-    pack , // @lengthOf(
-}, @rightPad ( '0'
-)
-falsey repeatCount
-// c
-// " ++ [27880; 37322]%N ++ runes_of_ascii "
-,
-    @tag(
-    // packet A { u8 x, }
-    0	)uint16 chars `" ++ [233]%N ++ runes_of_ascii "`
-,
-x@lengthOf( asx
-/// triple
-// a // b
-) `line1
-line2`, repeat options1
-a1 ,
-    @tag(
-    // @lengthOf(
-    42
-/// triple
-// packet A { u8 x, }
-)	@leftPad
-    ( '\x00')match T as x { [ ""a\\"" ] : falsey
-} // `tick` ""quote"" 'q'
-, x ,
-trueish i8i8
-,}
-MetaData T
-{ MetaDataX i8i8 `it's` ,
-    } // `tick` ""quote"" 'q'")).
-Eval vm_compute in ("<<<M4258>>>" ++ check (runes_of_ascii "// @lengthOf(
-packet chars {
-    repeat leftPad {
-        i64_,/// triple
-    },
-    BodyLength {
-        //	t
-        char[1] _x `line1
-        line2`,
-    },
-    @calculatedFrom(""" ++ [233]%N ++ runes_of_ascii "t" ++ [233]%N ++ runes_of_ascii """)
-    repeat zchar body,
-    char[65535] Foo,
-    repeat zchar[7] repeatCount,
-    @lengthOf(Logon)
-    @calculatedFrom(""{,}"")
-    //
-    string float,
-    u8x,
-    uint8x @calculatedFrom(""packet""),
-}//x
-
-MetaData T {
-    u16 zchar `tab	here`,
-    float64 x,// packet A { u8 x, }
-    i32 Packet ``,// `tick` ""quote"" 'q'
-    zchar[255] crc,
-    calculatedFrom u128,
-    zchar[1] metadata `
-    `,
-}
-
-packet uint8x {
-    Header {
-        uint16 metadata @lengthOf(MetaDataX) `line1
-        line2`,
-    },
-    // " ++ [27880; 37322]%N ++ runes_of_ascii "
-    // @lengthOf(
-    metadata repeatCount,
-    repeat x_y_z,
-    chars A,
-    packetx @calculatedFrom(""a\\"") ``,
-    char[007] a1 @lengthOf(A) `" ++ [28040; 24687; 31867; 22411]%N ++ runes_of_ascii "`,/// triple
-}
-
-options {
-    matchKey = float32;
-}
-
-packet f32a {
-    @lengthOf(repeatCount)
-    // @lengthOf(
-    @tag(42)
-    // `tick` ""quote"" 'q'
-    float32 u128,
-}")).
-Eval vm_compute in ("<<<M3548>>>" ++ check (runes_of_ascii "options {
-    StringPrefixLenType = u8;
-    ArrayPrefixLenType = u32;
-    FixedStringPadFromLeft = false;
-    FixedStringPadChar = ' ';
-}
-packet Party {
-    repeat i16 Qty,
-    repeat string Tail,
-    i8 OrderId,
-    i8 msgKind,
-}
-packet Ack {
-    Party,
-    repeat InRef20 {
-        Party,
-        int8 tag7,
-        char[5] OrderId,
-        zchar[7] Tail,
-        char[] count,
-        InPrice45 {
-            Party,
-            char[1] Px,
-        },
-    },
-    char[12] price,
-    int8 sym,
-}
-packet Reject {
-    repeat InPrice47 {
-        Party,
-    },
-    zchar[4] x,
-    repeat Ack,
-    zchar[2] Ref,
-    repeat Party,
-}
-packet Cancel {
-    Reject,
-    repeat string f1,
-    uint16 OrderId,
-    u8 Acct,
-    int8 msgKind,
-}
-root packet Fill {
-    u8 count,
-    char[] tag7,
-    zchar[7] Acct,
-    u32 OrderId,
-    u32 Note @lengthOf(Body),
-    match OrderId as Body {
-        106 : Cancel,
-        196 : Reject,
-        74 : Party,
-        75 : Ack,
-    },
-}
-")).
-Eval vm_compute in ("<<<M3770>>>" ++ check (runes_of_ascii "root packet matchKey {
-    match uint8x as x_y_z {
-        1 : falsey,
-    },
-}
-
-packet MetaDataX {
-    /// triple
-    float @calculatedFrom(""a\\"") `// not a comment`,
-    repeat stringy {
-        match repeatCount as a1 {
-            [""// no comment""] : metadata,
-            //	t
-            [4294967296, """ ++ [233]%N ++ runes_of_ascii "t" ++ [233]%N ++ runes_of_ascii """] : len,
-            [
-                ""a\\"", 4294967296, ""packet"", """ ++ [233]%N ++ runes_of_ascii "t" ++ [233]%N ++ runes_of_ascii """, 10,
-                0
-            ] : charz,
-            00 : i64_,
-            [7] : tag,
-            00 : falsey,
-        },
-    },
-    roots @calculatedFrom(""1"") `
-        `,
-    msg_type @lengthOf(stringy) `a\`,
-    int MetaDataX `doc`,
-    @calculatedFrom(""" ++ [128512]%N ++ runes_of_ascii """)
-    u64 int `say ""hi""`,
-}
-
-packet rootA {
-    asx @lengthOf(Foo) `a\`,
-    @leftPad(' ')
-    string Z9_,
-    crc @lengthOf(leftPad) `doc`,
-    repeat calculatedFrom u128 `{ , }`,//x
-    @calculatedFrom(""packet"")
-    @calculatedFrom(""\" ++ [233]%N ++ runes_of_ascii """)
-    i16 roots `doc`,
-}")).
-Eval vm_compute in ("<<<M1381>>>" ++ check (runes_of_ascii "packet
-chars{ @lengthOf(
-zchar )@tag( 42) match	roots as As {
-255 : x
-    ,
-    0123456789
-    : charz
-, 3	:
-T}
-// @lengthOf(
-// @lengthOf(
-, match body as Logon
-    {
-    ""packet"" : metadata , },  match
-As
-as i64_ { 7
-:metadata ,00: i64_ , [ ""a\""b"", ""\n"" , """ ++ [28040; 24687]%N ++ runes_of_ascii """
-    ] // a // b
-:// c
-falsey  ""abc"" : i8i8 , 7	: u128  , } , //
-BodyLength  @lengthOf(//x
-stringy )
-`// not a comment`, repeat f64
-    // trailing space 
-    BodyLength,
-int64  Z9_
-    ,
-    @calculatedFrom( ""// no comment""
-    // `tick` ""quote"" 'q'
-    ) @leftPad( '0' )	@tag(	3 )repeat char[	007 ]	chars, f64 x_y_z , stringy
-`u8 x,` ,@lengthOf( // a // b
-i8i8) // trailing space 
-roots rootA
-, } options { matchKey =
-float32
-    ;Z9_ = u8 f32a= true } root packet u128 { @rightPad (
-'\x00' ) Pad falsey`// not a comment` , //x
-int32 Z9_ @lengthOf( falsey ) ,
-//
-// @lengthOf(
-}
-")).
-Eval vm_compute in ("<<<M688>>>" ++ check (runes_of_ascii "packet
-Header
-{
-    @lengthOf( o)
-zchar[
-255
-    ] pack	@lengthOf( len) `a\`
-, @calculatedFrom( """ ++ [128512]%N ++ runes_of_ascii """
-) repeat Foo {
-float @lengthOf(
-    asx ) // packet A { u8 x, }
-, repeat body ,repeat x{	As @lengthOf(
-// packet A { u8 x, }
-// a // b
-Foo	) // a // b
-`doc` ,	string uint8x
-// packet A { u8 x, }
-// packet A { u8 x, }
-@lengthOf(msg_type) , } ,
-    // `tick` ""quote"" 'q'
-    },@leftPad ('0'
-)
-    @rightPad
-    //x
-    (
-'0'
-    ) x@calculatedFrom(	""" ++ [233]%N ++ runes_of_ascii "t" ++ [233]%N ++ runes_of_ascii """ ) ,@tag( // " ++ [27880; 37322]%N ++ runes_of_ascii "
-00 ) msg_type
-    @calculatedFrom( """ ++ [128512]%N ++ runes_of_ascii """ ), @tag(65535 ) repeat
-// " ++ [128512]%N ++ runes_of_ascii " emoji
-//	t
-x_y_z ,@tag( 1 )
-// c
-// " ++ [27880; 37322]%N ++ runes_of_ascii "
-zchar[4294967296] matchKey
-    , packetx , repeat charz packetx
-    `line1
-line2`  ,
-int32 x  @calculatedFrom(
-""\n"") ,	} root
-    packet int { @leftPad(
-/// triple
-// trailing space 
-) char zchar	@lengthOf(Pad
-    )
-`// not a comment`
-,} //x")).
-Eval vm_compute in ("<<<M1039>>>" ++ check (runes_of_ascii "packet a1 { chars { len{ Logon len , string string_ , u8x @calculatedFrom(
-    ""a\\""
-// a // b
-// c
-) ,  repeat
-    float{ body int `" ++ [233]%N ++ runes_of_ascii "`
-, }
-    ,	}, repeat As { repeat i64_
-    f32a `{ , }` , A@calculatedFrom( ""\" ++ [233]%N ++ runes_of_ascii """
-) , int64	float
-    //	t
-    ,
+3
+    : packetx
+, } , }
+, charz ,
     }
-,match x as chars {[
-    """ ++ [128512]%N ++ runes_of_ascii """
-    ,
-007	, ""x y"" ,
-00 , ""x y"",
-10 ] :  string_ 10 : float , 4294967296:	x_y_z , [ """ ++ [233]%N ++ runes_of_ascii "t" ++ [233]%N ++ runes_of_ascii """ //	t
-, 10 , 42  ,""" ++ [28040; 24687]%N ++ runes_of_ascii """ ,
-0123456789 ,	42
-    ,10]  : T 00
-: leftPad// trailing space 
-,  }, crc @lengthOf( u128
-// " ++ [128512]%N ++ runes_of_ascii " emoji
-// trailing space 
-) //x
-,  } ,
-    char[] packetx@calculatedFrom( ""abc"" )`line1
-line2`
-,	int32 repeatCount @lengthOf(
-Foo ) `it's` //	t
-, match Packet /// triple
-as string_  {
-42
-/// triple
-// trailing space 
-:f32a , 255 :
-    MetaDataX
-1: i8i8
-"""" : a1  ,//	t
-} , _x@lengthOf( chars) ,	}")).
-Eval vm_compute in ("<<<M145>>>" ++ check (runes_of_ascii "
-packet
-// `tick` ""quote"" 'q'
-// `tick` ""quote"" 'q'
-rootA{ @tag( 3  ) zchar[
-00 ] // trailing space 
-x_y_z
-    `" ++ [28040; 24687; 31867; 22411]%N ++ runes_of_ascii "`  , _x ,
     // a // b
-    float64
-    A
-@lengthOf( //
-u8x ) , u8 rootA`line1
-line2`	, zchar[ 7
-    ] // c
-stringy,
-match Header as f32a { ""\" ++ [233]%N ++ runes_of_ascii """:	o ,[
-    // `tick` ""quote"" 'q'
-    4294967296
-, 7 ,// c
-4294967296
-, ""packet"" , ""a	b"" , ""CRC32"" ,	7 ,
-""a	b""// trailing space 
-]	: // packet A { u8 x, }
-repeatCount, ""a\""b"" :
-    Header  [""a\""b"" ] :
-crc  ,	[  007
-,
-007, ""abc"" ] :
-    metadata, 4294967296 : chars ,
-} // " ++ [128512]%N ++ runes_of_ascii " emoji
-, @tag( 1 ) i8 matchKey	`a\` ,
+    root packet float
 // @lengthOf(
-// " ++ [128512]%N ++ runes_of_ascii " emoji
-@lengthOf(
-    body ) tag ,@lengthOf( matchKey
-)
-    @lengthOf(  o	)  @lengthOf( pack
-    ) repeat u {
-calculatedFrom @lengthOf( falsey  ), } , }
-")).
-Eval vm_compute in ("<<<M628>>>" ++ check (runes_of_ascii "root packet _x { //	t
-uint16
-_x, @tag( 7 ) repeat uint32 crc `line1
-line2`,match stringy as packetx
-{  255 : len , 255 //x
-:A ,
-    1 :
-    //
-    Z9_,
-""it's""
-    // trailing space 
-    :
-body[
-""{,}"" , ""packet"" // trailing space 
-, 0, ""\n"" ]:
-// `tick` ""quote"" 'q'
-// `tick` ""quote"" 'q'
-x , }
-,repeat
-    uint32
-Logon `tab	here` ,} packet string_
-    { string asx @lengthOf( float )
 // c
-// packet A { u8 x, }
-,@calculatedFrom(	""a\\""
-) match	chars as x { 42 : A
-    , """ ++ [28040; 24687]%N ++ runes_of_ascii """
-    : T ""a\\"" : tag //
-, 3 // trailing space 
-: i8i8
-[ 255 ] :MetaDataX /// triple
-,} ,
-float64 zchar	,@lengthOf( calculatedFrom )int
-falsey ,
-i16 Packet @calculatedFrom(
-    ""// no comment"") `say ""hi""`
-    ,@lengthOf( rootA
-)trueish ,}")).
-Eval vm_compute in ("<<<M4461>>>" ++ check (runes_of_ascii "options {
-    trueish = 4294967296;
-}
-
-root packet float {
-}
-
-packet Header {
-    repeat Logon,
-    @tag(0123456789)
-    uint8 asx `say ""hi""`,
-    int @calculatedFrom(""a	b""),
-    repeat Logon,
-}
-
-packet i64_ {
-    /// triple
-    repeat char[0123456789] metadata `u8 x,`,
-    repeat f32 Packet,
-    repeat crc {
-        int16 body `" ++ [28040; 24687; 31867; 22411]%N ++ runes_of_ascii "`,
-        int32 stringy,
-        // @lengthOf(
-        repeat char[65535] int,
-        u64 zchar,
-    },
-    @rightPad('\x00')
-    @calculatedFrom(""abc"")
-    @rightPad(' ')
-    rootA o,
-    repeat string msg_type,
-    //x
-    /// triple
-    char[3] i8i8 `two words`,
-    @calculatedFrom(""// no comment"")
-    /// triple
-    f32a @lengthOf(Z9_),
-}")).
-Eval vm_compute in ("<<<M4251>>>" ++ check (runes_of_ascii "root packet packetx {
-    match x as repeatCount {
-        65535 : i8i8,
-        10 : x_y_z,
-        42 : packetx,
-        0123456789 : metadata,
-        [""\" ++ [233]%N ++ runes_of_ascii """] : x_y_z,
-        ""a\\"" : i8i8,
-    },
-    stringy {
-        // c
-        stringy i64_,
-        repeat Header As `two words`,
-    },
-    repeat char[007] u8x `line1
-        line2`,
-    @lengthOf(charz)
-    // packet A { u8 x, }
-    @leftPad('0')
-    int16 BodyLength,
-    repeat float32 repeatCount,
-    match trueish as MetaDataX {
-        ""a	b"" : x,
-    },
-    char[0] matchKey @lengthOf(float),
-    @lengthOf(i64_)
-    @lengthOf(repeatCount)
-    // " ++ [27880; 37322]%N ++ runes_of_ascii "
-    @lengthOf(float)
-    f32 Z9_,
-}")).
-Eval vm_compute in ("<<<M4273>>>" ++ check (runes_of_ascii "
-options
-
-{ LittleEndian
-=
-
-true  ;
-FixedStringPadFromLeft = true;
-FixedStringPadChar=
-'0' ;
-
-    } packet Trade  {
-
-string
-    clOrdID  , char[]	Px  ,
-
-    u32
-	x
-
-    ,
-
-    }	packet	Reject {int32  Side2 ,	repeat
-	char[  3]clOrdID 
-,
-i32 tag7 , }  packet
-
-Leg  {  } root
-	packet
-	Quote
-
-    {string
-
-    Side2
-	, 
-string
-
-lastPx
-,
-
-InSym58 {
-int16
-OrderId , Reject	,
-    i8	Qty,
-	i64
-    venue
-,f32
-Note
-    , }
-
-    ,
-
-    char[]count
-
-,
-zchar[ 
-9
-]price
-
-, 
-u16 Qty ,	match
-Qty
-as 
-Body
-{	69 : 
-Leg
-	,
-48
-
-: Trade 
-, 51  :
-Reject
-
-,
-
-    }
-,u16
-Acct 
-@calculatedFrom(
-""CRC32""
-
-    )
-, 
-}
-")).
-Eval vm_compute in ("<<<M897>>>" ++ check (runes_of_ascii "packet
+{ repeat _x body `say ""hi""` , charz`// not a comment`,repeat lengthOf{
+repeatCount { repeat
+tag { zchar[ 42  ]
+// a // b
+// " ++ [27880; 37322]%N ++ runes_of_ascii "
 leftPad
-    {
-    @tag(
-    00
-) As chars  , u8
-i8i8
-    , match o
-as chars
-{	[""{,}""
-,
-    ""1"" , ""abc""
-,
-42 ,
-    // " ++ [27880; 37322]%N ++ runes_of_ascii "
-    ""packet"" ,00 ,
-"""",//
-""a\""b""
-    ]: uint8x ,
-""// no comment"" : calculatedFrom  ,  0 : int""packet"" :u
-//	t
-//x
-, /// triple
-""CRC32""
-    : As , 0 : len
-    , } ,char[ 0123456789] float
-@calculatedFrom(""CRC32"" ) ,
-    Pad chars`two words`
-,  string
-    stringy
-@calculatedFrom(""""// packet A { u8 x, }
-)
-,  @calculatedFrom(""`tick`""
-)// packet A { u8 x, }
-roots @lengthOf(
-    MetaDataX  )
+,repeat
+    zchar[0123456789  ]T `crlf
+line`,  char[]
+trueish , zchar[ 007 // " ++ [128512]%N ++ runes_of_ascii " emoji
+]	lengthOf @lengthOf(string_
+)`" ++ [233]%N ++ runes_of_ascii "` ,
+} ,repeat int32 As
+,int8 chars	, i32 calculatedFrom`it's`, } /// triple
+, zchar[ 00 ] chars ``
+, }	,char[255
+] charz @calculatedFrom(""1"" ) `doc` , // packet A { u8 x, }
+match body
+as rootA { ""CRC32"" :	A , [ 007
+    , ""{,}""
     ,
-@tag(	4294967296)u32
-A
-    `` , Foo ,
-    f32
-matchKey , }
-")).
-Eval vm_compute in ("<<<M4144>>>" ++ check (runes_of_ascii "  root packet  
-  /// triple
-  stringy{
+    0 // `tick` ""quote"" 'q'
+,""1""
+    ,0123456789 ,""// no comment""// " ++ [27880; 37322]%N ++ runes_of_ascii "
+, ""it's"", 1] :
+    BodyLength 65535 : x_y_z [""`tick`""]  : a1 }, repeat	asx{ char[ 0123456789 ]
+    i64_ `" ++ [28040; 24687; 31867; 22411]%N ++ runes_of_ascii "` ,
+    } , @lengthOf(  x_y_z )
+pack
+@calculatedFrom(""" ++ [233]%N ++ runes_of_ascii "t" ++ [233]%N ++ runes_of_ascii """) ,@tag( 3
+// trailing space 
+//
+) repeat uint64 o
+    ,// @lengthOf(
+}")).
+Eval vm_compute in ("<<<M1535>>>" ++ check (runes_of_ascii "packet a1 {
+    @lengthOf(f32a)
+    repeat u64 string_,
+    @calculatedFrom("""")
+    repeat i16 tag `u8 x,`,
+    @tag(42)
+    @calculatedFrom(""a\\"")
+    @calculatedFrom(""\" ++ [233]%N ++ runes_of_ascii """)
+    zchar[10] Foo,
+    char[42] body `// not a comment`,
+}
 
-    stringy  pack	,
-	char[
-	1	]T// @lengthOf(
-  @calculatedFrom(""// no comment""
+MetaData roots {
+    uint64 Z9_ `{ , }`,
+    char[] charz `doc`,
+    uint16 u128 `u8 x,`,
+    zchar[4294967296] len,
+    float32 stringy,
+}
 
-)
-	,
-zchar[
-    4294967296
+packet Z9_ {
+    @leftPad('\x00')
+    @tag(42)
+    @tag(7)
+    roots x,
+    @lengthOf(int)
+    crc zchar,
+}
 
-    ]
+packet string_ {
+    u8 Pad,
+    u64 chars,
+    @lengthOf(Logon)
+    pack,
+    @leftPad()
+    @rightPad(' ')
+    @calculatedFrom(""a	b"")
+    i8 x `crlf
+        line`,
+    char[0123456789] options1 @calculatedFrom(""{,}"") `two words`,
+    uint64 charz `doc`,
+    char[] u128,
+    @calculatedFrom(""1"")
+    repeat matchKey {
+        repeat int o,
+    },
+    @lengthOf(calculatedFrom)
+    @rightPad('\x00')
+    @tag(00)
+    MetaDataX {
+        uint32 BodyLength,
+    },
+    // trailing space 
+    //
+}
 
-    stringy
-	@calculatedFrom(
-""CRC32""
-)`doc`
-	,
-    zchar[	1
-    ]
-	body  @lengthOf(
-A
-)	,
+packet lengthOf {
+    @calculatedFrom(""" ++ [28040; 24687]%N ++ runes_of_ascii """)
+    // trailing space 
+    // " ++ [27880; 37322]%N ++ runes_of_ascii "
+    repeat repeatCount {
+        repeat char[7] pack `// not a comment`,
+    },
+}")).
+Eval vm_compute in ("<<<M1490>>>" ++ check (runes_of_ascii "options {
+    StringPrefixLenType = u32;
+    ArrayPrefixLenType = u8;
+    FixedStringPadFromLeft = false;
+}
 
-    asx 
-@lengthOf(
+packet Logon {
+    i8 venue,
+    int16 f1,
+    zchar[8] Acct,
+    repeat InNote16 {
+        InQty73 {
+            float32 tag7,
+        },
+        f32 Acct,
+        zchar[5] sym,
+    },
+    uint16 Side2,
+    i32 lastPx,
+}
 
-Packet
+packet Fill {
+    repeat InOrderid15 {
+        zchar[8] sym,
+        repeat char[2] OrderId,
+        repeat Logon,
+        InQty82 {
+            char[] Tail,
+            repeat Logon,
+            float64 price,
+            f64 Side2,
+        },
+        char[12] venue,
+        char[4] Px,
+    },
+    @rightPad('0')
+    char[2] venue,
+    InPrice99 {
+        InAcct72 {
+            u8 pad0,
+        },
+        u32 OrderId,
+        Logon,
+    },
+}
+
+root packet Reject {
+    zchar[9] msgKind,
+    u32 venue,
+    u16 seqNo @lengthOf(Body),
+    match venue as Body {
+        57 : Fill,
+        8 : Logon,
+    },
+    u16 Tail @calculatedFrom(""CR\
+    C32""),
+}")).
+Eval vm_compute in ("<<<M1569>>>" ++ check (runes_of_ascii "root packet pack {
+    zchar[255] T `a\`,
+    char[] Z9_ @lengthOf(u8x) `two words`,
+    A {
+        repeat char[] x ``,
+        // @lengthOf(
+        /// triple
+        repeat zchar[007] i64_,
+    },
+    uint8x @lengthOf(i64_) ``,
+}
+
+packet calculatedFrom {
+    @leftPad()
+    u32 calculatedFrom ``,
+    @tag(0123456789)
+    @leftPad()
+    int8 _x ``,
+    match rootA as u {
+        // c
+        10 : Z9_,
+        0123456789 : float,
+        //
+        // c
+        0 : float,
+        [""it's""] : packetx,
+    },// `tick` ""quote"" 'q'
+    @lengthOf(string_)
+    zchar[0123456789] body @lengthOf(repeatCount),
+    @calculatedFrom(""\n"")
+    match body as u8x {
+        ""a\""b"" : T,
+        [
+            ""\n"", """ ++ [233]%N ++ runes_of_ascii "t" ++ [233]%N ++ runes_of_ascii """, ""CRC32"", 255, 7,
+            ""// no comment"", """ ++ [28040; 24687]%N ++ runes_of_ascii """
+        ] : x,
+        255 : packetx,
+    },
+    @tag(65535)
+    repeat Header zchar,
+}
+
+MetaData Logon {
+}")).
+Eval vm_compute in ("<<<M85>>>" ++ check (runes_of_ascii "packet chars
+{}// c
+packet
+len
+{
+    repeat char[] Foo
+, @rightPad ('0' ) zchar[ 007 ]/// triple
+a1`say ""hi""` , repeat BodyLength  leftPad ,}
+root	packet u8x { f64 lengthOf
+    @calculatedFrom(
+""CRC32""	)
+    ,
+    string
+zchar @lengthOf( int)
+    `crlf
+line` , int calculatedFrom , @lengthOf(As ) match falsey as asx {
+65535: _x
+    [ 1 ] :
+    u 007:	uint8x
+00:	f32a
+, """ ++ [233]%N ++ runes_of_ascii "t" ++ [233]%N ++ runes_of_ascii """ :	Packet ,[ 42 ,""a\""b"" ] : len
+    //x
+    , } , @lengthOf(stringy
+    // " ++ [128512]%N ++ runes_of_ascii " emoji
+    )@calculatedFrom(  ""1"" )repeat A { char[]lengthOf  `it's` , }
+, _x `" ++ [28040; 24687; 31867; 22411]%N ++ runes_of_ascii "` ,
+    @leftPad ('0'
+    ) match Foo as
+crc {10 :
+    trueish
+// " ++ [27880; 37322]%N ++ runes_of_ascii "
+//
+, 42
+:// " ++ [128512]%N ++ runes_of_ascii " emoji
+Pad
+, [4294967296
+,  ""// no comment"" , ""{,}"" ]:
+float
+    ,  } , @lengthOf( u8x ) a1
+// c
+// trailing space 
+@calculatedFrom( ""\" ++ [233]%N ++ runes_of_ascii """ ) // c
+,} 	 ")).
+Eval vm_compute in ("<<<M1894>>>" ++ check (runes_of_ascii "
+
+  root 
+packet packetx { match
+
+x as
+    repeatCount  // " ++ [128512]%N ++ runes_of_ascii " emoji
+{ 65535	//x
+
+:  i8i8  10
+    :
+    x_y_z 
+42	// @lengthOf(
+    	:
+
+    packetx 0123456789
+
+    :metadata [
+""\" ++ [233]%N ++ runes_of_ascii """
+
+]
+:
+	x_y_z
+
+,  ""a\\""  : i8i8 
+, }
+    ,
+
+stringy
+
+{	// c
+  stringy
+
+    i64_ 
+,
+    repeat
+    Header As
+
+    `two words`,	}
+,  repeat char[ 007	// `tick` ""quote"" 'q'
+  ]
+u8x `line1
+line2`
+
+, @lengthOf(
+    charz
 
     )
-	`two words`// packet A { u8 x, }
+
+// packet A { u8 x, }
+
+@leftPad
+
+(
+	'0'
+
+)	int16
+	BodyLength ,
+
+    repeat
+float32  repeatCount , 
+match 
+trueish
+
+    as
+	MetaDataX {
+
+    ""a	b""
+    // a // b
+:	x
 	,
-    leftPad
+} , char[ 0]matchKey  @lengthOf(float  ), 
+@lengthOf(
+i64_
+)
+@lengthOf( 
+repeatCount) // " ++ [27880; 37322]%N ++ runes_of_ascii "
+    @lengthOf(float
+)	f32 
+Z9_ , } ")).
+Eval vm_compute in ("<<<M1555>>>" ++ check (runes_of_ascii "packet A {
+    repeat o Z9_,
+    @calculatedFrom(""" ++ [233]%N ++ runes_of_ascii "t" ++ [233]%N ++ runes_of_ascii """)
+    @calculatedFrom(""a\\"")
+    @tag(42)
+    match Header as tag {
+        ""`tick`"" : As,
+        [""\" ++ [233]%N ++ runes_of_ascii """] : asx,
+        [3, ""1"", ""\n"", 007, ""\n""] : options1,
+        ""abc"" : falsey,
+        4294967296 : metadata,
+    },
+    @tag(4294967296)
+    tag @calculatedFrom(""" ++ [128512]%N ++ runes_of_ascii """),
+}
 
-    @calculatedFrom(
-""\n"")`it's`
+// `tick` ""quote"" 'q'
+packet stringy {
+    char[] packetx `
+    `,
+    string leftPad @lengthOf(float),
+    @tag(65535)
+    @lengthOf(packetx)
+    @lengthOf(Pad)
+    // trailing space 
+    // " ++ [27880; 37322]%N ++ runes_of_ascii "
+    repeatCount BodyLength,// a // b
+    char[] A @lengthOf(a1) `two words`,
+}
 
-, i16 f32a 
-// @lengthOf(
-	, 
-} MetaData
-	metadata
-    {
-
-char[
-
-    7
-	]crc
-
-,
-options1
-u128`two words` ,
-    falsey calculatedFrom
-, string_
-
-As	//x
-    , }")).
-Eval vm_compute in ("<<<M3475>>>" ++ check (runes_of_ascii "packet A // c1a
+packet falsey {
+}")).
+Eval vm_compute in ("<<<M1389>>>" ++ check (runes_of_ascii "packet A // c1a
   // c1b
 {
     // c2
@@ -1237,1060 +469,645 @@ A // c40
 }
     // c44
 ")).
-Eval vm_compute in ("<<<M3749>>>" ++ check (runes_of_ascii "root packet a1 {
-    int16 u8x,
-    match pack as i8i8 {
-        ""packet"" : i64_,
-        [
-            1, 7, 007, 0123456789, """ ++ [233]%N ++ runes_of_ascii "t" ++ [233]%N ++ runes_of_ascii """,
-            0
-        ] : chars,
-        [
-            7, ""a\\"", ""a\""b"", 007, 0,
-            ""// no comment""
-        ] : A,
-    },
-    int64 metadata,
-    @lengthOf(roots)
-    len,
-    repeat As `it's`,//	t
-    repeat calculatedFrom {
-        repeat options1 stringy,
-        calculatedFrom matchKey `" ++ [28040; 24687; 31867; 22411]%N ++ runes_of_ascii "`,
-        float32 options1 @lengthOf(float),
-    },
-}")).
-Eval vm_compute in ("<<<M187>>>" ++ check (runes_of_ascii "root packet A
-{  match
-u8x as body {
-7:
-    BodyLength // trailing space 
-, 007 : _x , 10 :
-    Header},// `tick` ""quote"" 'q'
-@lengthOf( pack ) tag @lengthOf( rootA  )
-,match a1 as  calculatedFrom
-{ 1 :
-string_
-, } ,  @lengthOf( x_y_z
-) a1,
-    @lengthOf(	MetaDataX
-) int ,} packet
-repeatCount { uint64 string_ `two words` , } options	{chars
-    = false; float
-//	t
-// " ++ [27880; 37322]%N ++ runes_of_ascii "
-= """ ++ [28040; 24687]%N ++ runes_of_ascii """ crc=u8 a1 = 1;
-} MetaData // a // b
-leftPad {
-    u128 Header , } options {
-    }
+Eval vm_compute in ("<<<M1783>>>" ++ check (runes_of_ascii "root
 
-")).
-Eval vm_compute in ("<<<M1176>>>" ++ check (runes_of_ascii "
-MetaData
-roots	{	char[
-42 ] // @lengthOf(
-packetx`u8 x,`
-    ,	}
-    MetaData
-len { u128 rootA`
-`
-    ,
-roots
-trueish `doc`
-// a // b
-// `tick` ""quote"" 'q'
-,// trailing space 
-uint64 x_y_z
-    , u32 string_ , options1 int, i8 charz `it's`,
-// " ++ [128512]%N ++ runes_of_ascii " emoji
-//
-} MetaData int {
-// trailing space 
-// " ++ [27880; 37322]%N ++ runes_of_ascii "
-}
-    packet len
-{  @calculatedFrom(
-""a\\"")
-string Header
-`doc` , }packet o
-{ @leftPad
-    // c
-    (' ' ) char[] // c
-crc@calculatedFrom(""{,}"" )	, }
-")).
-Eval vm_compute in ("<<<M3669>>>" ++ check (runes_of_ascii "MetaData Logon {
-    zchar[3] a1 `" ++ [28040; 24687; 31867; 22411]%N ++ runes_of_ascii "`,
-    char[007] MetaDataX `a\`,
-}
-
-root packet pack {
-}
-
-packet i64_ {
-    @lengthOf(chars)
-    len {
-        uint8 rootA `doc`,
-        string_ `crlf
-        line`,//	t
-        match charz as Foo {
-            42 : options1,
-            [255] : charz,
-        },
-    },
-    roots repeatCount `two words`,
-    //	t
-    string Logon @calculatedFrom(""a\""b""),
-    @calculatedFrom(""a\\"")
-    Z9_,
-}//x")).
-Eval vm_compute in ("<<<M1033>>>" ++ check (runes_of_ascii "packet Pad /// triple
-{i16  A @calculatedFrom(
-""a\""b"" ) ,}
-    packet roots{ @tag(// trailing space 
-65535 )repeat f32a{
-    char[ 00] a1 @calculatedFrom( ""a\\"" ) , float32
-x_y_z , len // packet A { u8 x, }
+    packet
+    u128
 {
-// `tick` ""quote"" 'q'
-// c
-stringy
-    u8x `
-`
-    ,
-    }
-//
-// packet A { u8 x, }
-, f32 Foo@calculatedFrom(
-""a\""b""
-) ,
-} ,
-@calculatedFrom(""1""
-) u64	calculatedFrom	,
-    u32 u8x , u32	calculatedFrom
-`` , }
-")).
-Eval vm_compute in ("<<<M784>>>" ++ check (runes_of_ascii "packet Header
-{stringy@calculatedFrom( ""x y"" ) ,
-    @tag(0	) uint64 trueish
-    //	t
-    ,
-    uint8x , trueish BodyLength,crc chars , } MetaData
-As { char[]A ,u8x trueish
-//	t
-//
-`
-` , uint16
-// trailing space 
-// " ++ [27880; 37322]%N ++ runes_of_ascii "
-leftPad`" ++ [233]%N ++ runes_of_ascii "` , i16 u8x // c
-,
-// trailing space 
-// @lengthOf(
-f64
-    f32a  `tab	here` ,}
-    packet i8i8
-{repeat int `line1
-line2` ,} MetaData
-    len {
-crc string_`crlf
-line`, }
-")).
-Eval vm_compute in ("<<<M3917>>>" ++ check (runes_of_ascii "
-packet body 
-{ @rightPad ('0'	) Packet  a1
-	,
-asx ,repeatCount
-	// trailing space 
-	// packet A { u8 x, }
-{ // trailing space 
-	repeat  int64
-
-falsey ,
-
-    }
-    ,@rightPad
-    // c
-    // a // b
-(	'0'
-)
-	match int
-    // " ++ [27880; 37322]%N ++ runes_of_ascii "
-
-  as
-    T  { 4294967296 
-: _x
-    ,
-    00
-
-:
-	string_ 	 // c
-  ,
-[ 
-""x y""
-]	: stringy
-
-,}
-
-    ,// packet A { u8 x, }
-  uint32
-x_y_z	,
-
-    }
-")).
-Eval vm_compute in ("<<<M190>>>" ++ check (runes_of_ascii "packet x_y_z
-    {@calculatedFrom( """"
-) repeat
-// `tick` ""quote"" 'q'
-// `tick` ""quote"" 'q'
-_x f32a , @calculatedFrom(
-    ""it's"")chars
-// c
-// `tick` ""quote"" 'q'
-,
-    int32 u8x// `tick` ""quote"" 'q'
-, // c
-}options
-    // " ++ [128512]%N ++ runes_of_ascii " emoji
-    {crc	= """ ++ [233]%N ++ runes_of_ascii "t" ++ [233]%N ++ runes_of_ascii """ }root packet  string_{ } packet x  { u8x
-    Packet
-    ,
-i32 float, } options
-    {Pad =  4294967296 ; leftPad
-= """ ++ [233]%N ++ runes_of_ascii "t" ++ [233]%N ++ runes_of_ascii """}
-")).
-Eval vm_compute in ("<<<M4032>>>" ++ check (runes_of_ascii "root packet asx {
-    @calculatedFrom(""CRC32"")
-    match chars as trueish {
-        """" : T,
-        42 : f32a,
-        ""{,}"" : calculatedFrom,
-        255 : A,
-    },
-}
-
-root packet matchKey {
-    u16 len @lengthOf(metadata) `// not a comment`,
-}
-
-options {
-    Z9_ = ""it's""
-    packetx = """ ++ [28040; 24687]%N ++ runes_of_ascii """;
-    falsey = char[0];
-    MetaDataX = ""a\\""
-    A = true;
-}")).
-Eval vm_compute in ("<<<M495>>>" ++ check (runes_of_ascii "root packet BodyLength{ // " ++ [27880; 37322]%N ++ runes_of_ascii "
-repeat metadata msg_type
-`" ++ [28040; 24687; 31867; 22411]%N ++ runes_of_ascii "`
-, string roots	@calculatedFrom(""\n""
-    // a // b
-    ) , repeat u8	repeatCount
-`" ++ [233]%N ++ runes_of_ascii "`
-,
-match x  as metadata {
-""`tick`"": roots 1 :x_y_z , """ ++ [128512]%N ++ runes_of_ascii """:
-Logon	, 7:falsey , }
-    , }
-packet Header // packet A { u8 x, }
-{ crc u,
-}
-    MetaData Logon { char[ 65535
-    ]	lengthOf ,} //")).
-Eval vm_compute in ("<<<M64>>>" ++ check (runes_of_ascii "MetaData chars {
-char[] // " ++ [128512]%N ++ runes_of_ascii " emoji
-As `a\` , } packet repeatCount {repeat
-    //x
-    charz
-{ char[ 00 ]	Pad,
-} , @calculatedFrom( ""// no comment"" )
-char[] matchKey //x
-`doc` ,u64 T@lengthOf(
-int
-) , }
-packet Header /// triple
-{  @calculatedFrom(""a\""b"") char[65535 ]
-// trailing space 
-// `tick` ""quote"" 'q'
-falsey , }
-")).
-Eval vm_compute in ("<<<M1550>>>" ++ check (runes_of_ascii "root packet Foo // " ++ [128512]%N ++ runes_of_ascii " emoji
-{ } options {
-    // a // b
-    tag // `tick` ""quote"" 'q'
-= //	t
-""""
-    ; u8x = zchar[0  ] }
-MetaData
-    int {zchar[ 10]
-lengthOf	`` , i64 u8x`// not a comment` `// not a comment` ,MetaDataX pack// `tick` ""quote"" 'q'
-`crlf
-line`
-, Logon charz `crlf
-line`
-    ,
-    // a // b
-    }
-")).
-Eval vm_compute in ("<<<M1184>>>" ++ check (runes_of_ascii "/// triple
-MetaData body { zchar[ 65535 ]
-    //	t
-    _x , zchar[ 10 ]
-o	, i8i8 trueish ,
-Header
-u128
-`doc` ,// `tick` ""quote"" 'q'
-} packet matchKey { zchar `" ++ [233]%N ++ runes_of_ascii "` , }
-packet
-    metadata
-    {int16
-    len@lengthOf(
-// trailing space 
-// `tick` ""quote"" 'q'
-charz ) `two words` , // trailing space 
-}
-")).
-Eval vm_compute in ("<<<M1442>>>" ++ check (runes_of_ascii "root packet Foo // " ++ [128512]%N ++ runes_of_ascii " emoji
-{ } options char
-    // a // b
-    tag // `tick` ""quote"" 'q'
-= //	t
-""""
-    ; u8x = zchar[0  ] }
-MetaData
-    int {zchar[ 10]
-lengthOf	`` , i64 u8x`// not a comment` ,MetaDataX pack// `tick` ""quote"" 'q'
-`crlf
-line`
-, Logon charz `crlf
-line`
-    ,
-    // a // b
-    }
-")).
-Eval vm_compute in ("<<<M1597>>>" ++ check (runes_of_ascii "root packet Foo // " ++ [128512]%N ++ runes_of_ascii " emoji
-{ } options {
-    // a // b
-    tag // `tick` ""quote"" 'q'
-= //	t
-""""
-    ; u8x = zchar[0  ] }
-MetaData
-    int {zchar[ 10]
-lengthOf	`` , i64 u8x`// not a comment` ,MetaDataX pack// `tick` ""quote"" 'q'
-`crlf
-line`
-, Logon charz `crlf
-line`
-    u64
-    // a // b
-    }
-")).
-Eval vm_compute in ("<<<M1451>>>" ++ check (runes_of_ascii "root packet Foo // " ++ [128512]%N ++ runes_of_ascii " emoji
-{ } options {
-    // a // b
-    tag // `tick` ""quote"" 'q'
-"""" //	t
-=
-    ; u8x = zchar[0  ] }
-MetaData
-    int {zchar[ 10]
-lengthOf	`` , i64 u8x`// not a comment` ,MetaDataX pack// `tick` ""quote"" 'q'
-`crlf
-line`
-, Logon charz `crlf
-line`
-    ,
-    // a // b
-    }
-")).
-Eval vm_compute in ("<<<M4395>>>" ++ check (runes_of_ascii "options {
-    roots = 3
-    leftPad = string;
-    packetx = false;
-    zchar = true
-    options1 = false;
-}
-
-MetaData string_ {
-    i32 x_y_z,
-    char[4294967296] zchar `two words`,// c
-    char[42] metadata,
-}
-
-packet _x {
-    int8 rootA `doc`,
-}
-
-options {
-    lengthOf = ""// no comment""
-}")).
-Eval vm_compute in ("<<<M338>>>" ++ check (runes_of_ascii "
-MetaData u8x
-{
-stringy x_y_z , }
-root packet MetaDataX
-{
-len
-    @calculatedFrom(""`tick`"")// trailing space 
-`tab	here`
-    ,repeat
-falsey{
-T@calculatedFrom( ""\" ++ [233]%N ++ runes_of_ascii """
-) ,/// triple
-float32 options1 `tab	here` , // a // b
-},	@lengthOf( T
-)repeat
-float64// trailing space 
-a1
-`{ , }` ,}
-")).
-Eval vm_compute in ("<<<M1122>>>" ++ check (runes_of_ascii "root packet u8x { Packet	{
-    repeat i32 tag , } , match  A
-    as Logon {00: _x
-, } , int8 i8i8
-@lengthOf( metadata
-) ,	string
-lengthOf `
-`	,
-float32	calculatedFrom
-`two words`,}packet a1
-{
-Pad rootA , }  MetaData crc { char[ 007	] As`a\` ,
-u8x
-metadata  , roots lengthOf
-    ,	}
-")).
-Eval vm_compute in ("<<<M745>>>" ++ check (runes_of_ascii "  packet roots  {
-match
-// packet A { u8 x, }
-// " ++ [27880; 37322]%N ++ runes_of_ascii "
-u as repeatCount{4294967296	: repeatCount ,
-    1
-    : T, ""CRC32"" : matchKey , } , @rightPad // @lengthOf(
-(
-) @lengthOf( A	) @lengthOf(
-/// triple
-//x
-lengthOf // " ++ [27880; 37322]%N ++ runes_of_ascii "
-) repeat Pad {	zchar[ 4294967296] T  `tab	here`,} , }
-")).
-Eval vm_compute in ("<<<M1108>>>" ++ check (runes_of_ascii "MetaData lengthOf
-    {
-float rootA `
-`
-,  i16 // " ++ [128512]%N ++ runes_of_ascii " emoji
-x	,
-float32 msg_type, lengthOf
-// a // b
-// " ++ [27880; 37322]%N ++ runes_of_ascii "
-u8x `" ++ [28040; 24687; 31867; 22411]%N ++ runes_of_ascii "` ,}
-    options {  packetx= 3 ;options1=  zchar[255 ]
-;  Pad =false
-    ; repeatCount =	42 // @lengthOf(
-;
-    chars
-/// triple
-// a // b
-= ' '; }")).
-Eval vm_compute in ("<<<M664>>>" ++ check (runes_of_ascii "MetaData i64_ {
-char[
-255 ]tag
-    //
-    , uint32 Z9_ , T options1 `a\` ,
-    options1 Pad  , f32
-leftPad `line1
-line2` ,
-}
-options {	}
-    root
-    packet uint8x { // `tick` ""quote"" 'q'
-@lengthOf(float) falsey int `
-`, } MetaData A { u8 Packet ,}")).
-Eval vm_compute in ("<<<M4427>>>" ++ check (runes_of_ascii "
-MetaData 
-x{
-Foo
-    Header
-
-    ,
-
-char[
-0123456789  ] len 
-, int64
-    i64_,	char[ 
-42
-]
-
-    i8i8
-	,	i16  /// triple
-	pack, int64 
-u8x `it's` , 
-}  packet  pack 	 // @lengthOf(
-{ @calculatedFrom(  ""// no comment"" ) len matchKey , 
-}
-
-")).
-Eval vm_compute in ("<<<M4253>>>" ++ check (runes_of_ascii "packet 
-u128// packet A { u8 x, }
-
-{ @tag(
-00 )
-// trailing space 
-  i64
-
-    msg_type 
-@calculatedFrom( ""x y"")	,
-repeat 	 //
-    calculatedFrom u 	 //
-,@rightPad(
-    '0'
-
-) 
-repeat string  chars ``
-
-, int8
-
-    metadata, 
-}
-")).
-Eval vm_compute in ("<<<M2213>>>" ++ check (runes_of_ascii "MetaData MetaData Packet { }packet	asx  { @lengthOf( asx) falsey`crlf
-line`
-,
-    }
-    packet x	{uint32// @lengthOf(
-rootA	,u32 options1 `say ""hi""` , @tag( 7
-    )// packet A { u8 x, }
-msg_type @lengthOf(
-stringy	)	, }
-
-")).
-Eval vm_compute in ("<<<M2288>>>" ++ check (runes_of_ascii "MetaData Packet { }packet	asx  { @lengthOf( asx) falsey`crlf
-line`
-,
-    }
-    packet zchar[	{uint32// @lengthOf(
-rootA	,u32 options1 `say ""hi""` , @tag( 7
-    )// packet A { u8 x, }
-msg_type @lengthOf(
-stringy	)	, }
-
-")).
-Eval vm_compute in ("<<<M2361>>>" ++ check (runes_of_ascii "MetaData Packet { }packet	asx  { @lengthOf( asx) falsey`crlf
-line`
-,
-    }
-    packet x	{uint32// @lengthOf(
-rootA	,u32 options1 `say ""hi""` , @tag( 7
-    )// packet A { u8 x, }
-msg_type @lengthOf(
-stringy	) )	, }
-
-")).
-Eval vm_compute in ("<<<M2247>>>" ++ check (runes_of_ascii "MetaData Packet { }packet	asx  { asx @lengthOf() falsey`crlf
-line`
-,
-    }
-    packet x	{uint32// @lengthOf(
-rootA	,u32 options1 `say ""hi""` , @tag( 7
-    )// packet A { u8 x, }
-msg_type @lengthOf(
-stringy	)	, }
-
-")).
-Eval vm_compute in ("<<<M2255>>>" ++ check (runes_of_ascii "MetaData Packet { }packet	asx  { @lengthOf( asx falsey`crlf
-line`
-,
-    }
-    packet x	{uint32// @lengthOf(
-rootA	,u32 options1 `say ""hi""` , @tag( 7
-    )// packet A { u8 x, }
-msg_type @lengthOf(
-stringy	)	, }
-
-")).
-Eval vm_compute in ("<<<M3728>>>" ++ check (runes_of_ascii "packet A {
-    match k as n {
-        ""x\
-                y"" : B,
-        [""x\
-                y"", 1] : C,
-        [
-            1, 2, 3, 4, 5,
-            ""x\
-                        y""
-        ] : D,
-    },
-}")).
-Eval vm_compute in ("<<<M7>>>" ++ check (runes_of_ascii "MetaData trueish {	tag Foo `say ""hi""` , zchar[ 4294967296 ]
-    charz // packet A { u8 x, }
-,
-/// triple
-// a // b
-Z9_ _x ,
-char[	0123456789 ] lengthOf
-    , i64 u8x `// not a comment` , f32a a1 `doc`,	}
-")).
-Eval vm_compute in ("<<<M701>>>" ++ check (runes_of_ascii "// @lengthOf(
-MetaData pack { char[
-255
-    ]
-    options1
-,uint64
-    lengthOf,	int32 roots, }root packet Packet // @lengthOf(
-{// c
-@calculatedFrom( ""{,}"" ) string
-// " ++ [27880; 37322]%N ++ runes_of_ascii "
-// " ++ [128512]%N ++ runes_of_ascii " emoji
-zchar `" ++ [28040; 24687; 31867; 22411]%N ++ runes_of_ascii "`,	}")).
-Eval vm_compute in ("<<<M401>>>" ++ check (runes_of_ascii "MetaData// " ++ [27880; 37322]%N ++ runes_of_ascii "
-Z9_ {
-}root
-    packet leftPad{	@lengthOf( Pad ) @lengthOf(lengthOf
-)
-    @tag( 4294967296 ) o @lengthOf( i64_ )// a // b
-,
-}
-options
-// `tick` ""quote"" 'q'
-//x
-{
-    //
-    }")).
-Eval vm_compute in ("<<<M1162>>>" ++ check (runes_of_ascii "options { A = false
-    ;Packet = false ; Packet =
-zchar[0123456789 ]
-; charz
-= true
-    ; } MetaData	float
-{ u8x
-    Header
-    `" ++ [28040; 24687; 31867; 22411]%N ++ runes_of_ascii "`	,}packet
-    Header {Pad @lengthOf(u8x ) ,  }")).
-Eval vm_compute in ("<<<M351>>>" ++ check (runes_of_ascii "root packet
-stringy { charz T// " ++ [128512]%N ++ runes_of_ascii " emoji
-`u8 x,` ,	char tag , uint64 u128 ,}
-options { x
-=
-    '0' // `tick` ""quote"" 'q'
-rootA =""CRC32"" ; // " ++ [27880; 37322]%N ++ runes_of_ascii "
-i64_=""a\\"" ; } options{
-}
-// " ++ [27880; 37322]%N ++ runes_of_ascii "
-")).
-Eval vm_compute in ("<<<M1074>>>" ++ check (runes_of_ascii "packet
-f32a {
-    }
-    options { metadata = ' ' ; }
-options { }packet a1
-{ Foo { // " ++ [128512]%N ++ runes_of_ascii " emoji
-repeat zchar[00	]
-_x
-,
-}  ,
-    }
-MetaData Pad  {
-u16 u `tab	here`,	}")).
-Eval vm_compute in ("<<<M1543>>>" ++ check (runes_of_ascii "root packet Foo // " ++ [128512]%N ++ runes_of_ascii " emoji
-{ } options {
-    // a // b
-    tag // `tick` ""quote"" 'q'
-= //	t
-""""
-    ; u8x = zchar[0  ] }
-MetaData
-    int {zchar[ 10]
-lengthOf	`` ,")).
-Eval vm_compute in ("<<<M963>>>" ++ check (runes_of_ascii "root packet int
-{  trueish @calculatedFrom(  ""it's"" )
-    `doc` , string T
-`crlf
-line`, repeat rootA {match chars as tag{ [  """ ++ [233]%N ++ runes_of_ascii "t" ++ [233]%N ++ runes_of_ascii """
-] :	uint8x,
-} , } , }
-")).
-Eval vm_compute in ("<<<M4065>>>" ++ check (runes_of_ascii "  MetaData Pad
-
-    { int64
-	roots
-    ,
-
-    body u128
-//x
-	  ,
-float64 x 	 // trailing space 
-      ,int32 chars	,
-A options1
-
-    `
-`,
-
-} ")).
-Eval vm_compute in ("<<<M1061>>>" ++ check (runes_of_ascii "MetaData //
-u128 { x_y_z x_y_z `tab	here`, string
-// c
-/// triple
-charz// a // b
-, i64 roots`{ , }`
-    ,/// triple
-Logon//	t
-packetx ,
-    }
-")).
-Eval vm_compute in ("<<<M1078>>>" ++ check (runes_of_ascii "MetaData u128 { char[ 3
-] leftPad
-, char[] u8x	`{ , }` ,Header i8i8 , } options {
-    //
-    crc	= ""// no comment""asx
-= ""CRC32"" ;
-    }
-")).
-Eval vm_compute in ("<<<M1801>>>" ++ check (runes_of_ascii "packet
-    Pad // a // b
-{ i8i8 @calculatedFrom( @calculatedFrom( ""a	b"") `u8 x,` ,
-} options{ float// " ++ [128512]%N ++ runes_of_ascii " emoji
-= f64 i64_
-=//	t
-00 }
-")).
-Eval vm_compute in ("<<<M4483>>>" ++ check (runes_of_ascii "  options{ // c
-
-stringy
-=""1"" 
-;float	=
-i64	; 	 // a // b
-calculatedFrom
-	=  ""it's"";// c
-		Z9_
-= 
-""// no comment""  ;  // " ++ [27880; 37322]%N ++ runes_of_ascii "
-    }")).
-Eval vm_compute in ("<<<M1631>>>" ++ check (runes_of_ascii "root rootA /// triple
-packet {	i32
-MetaDataX@calculatedFrom( ""CRC32"" ) `line1
-line2` , } MetaData BodyLength {
-u8
-rootA, } // c")).
-Eval vm_compute in ("<<<M152>>>" ++ check (runes_of_ascii "options
-    {
-matchKey
-= ' '
-tag  = '\x00' ;
-    metadata
-// `tick` ""quote"" 'q'
-// @lengthOf(
-=  string ; charz
-= 65535
-; }
-")).
-Eval vm_compute in ("<<<M703>>>" ++ check (runes_of_ascii "options { matchKey = // @lengthOf(
-1 x
-= ""\" ++ [233]%N ++ runes_of_ascii """
-//	t
-/// triple
-MetaDataX =""a\""b"" ; u128
-// c
-/// triple
-=""\" ++ [233]%N ++ runes_of_ascii """
-} packet	As{ }")).
-Eval vm_compute in ("<<<M1629>>>" ++ check (runes_of_ascii "root  /// triple
-rootA {	i32
-MetaDataX@calculatedFrom( ""CRC32"" ) `line1
-line2` , } MetaData BodyLength {
-u8
-rootA, } // c")).
-Eval vm_compute in ("<<<M1866>>>" ++ check (runes_of_ascii "packet
-    Pad // a // b
-{ i8i8 @calculatedFrom( ""a	b"") `u8 x,` ,
-} options{ float// " ++ [128512]%N ++ runes_of_ascii " emoji
-= f64 i64_
-=//	t
-00 00 }
-")).
-Eval vm_compute in ("<<<M1793>>>" ++ check (runes_of_ascii "packet
-    Pad // a // b
-42 i8i8 @calculatedFrom( ""a	b"") `u8 x,` ,
-} options{ float// " ++ [128512]%N ++ runes_of_ascii " emoji
-= f64 i64_
-=//	t
-00 }
-")).
-Eval vm_compute in ("<<<M1812>>>" ++ check (runes_of_ascii "packet
-    Pad // a // b
-{ i8i8 @calculatedFrom( ""a	b""`u8 x,` ) ,
-} options{ float// " ++ [128512]%N ++ runes_of_ascii " emoji
-= f64 i64_
-=//	t
-00 }
-")).
-Eval vm_compute in ("<<<M2309>>>" ++ check (runes_of_ascii "MetaData Packet { }packet	asx  { @lengthOf( asx) falsey`crlf
-line`
-,
-    }
-    packet x	{uint32// @lengthOf(
-rootA")).
-Eval vm_compute in ("<<<M501>>>" ++ check (runes_of_ascii "options { u128 =  zchar[	255 ] ;  Pad=
-00 x_y_z= i16 Header  = ""\n""  ;  }
-    root packet
-BodyLength {//x
-}
-//x
-")).
-Eval vm_compute in ("<<<M3583>>>" ++ check (runes_of_ascii "packet A {
-    B b `a
-        b
-      c`,
-    B `a
-        b
-      c`,
-    repeat B bs `a
-        b
-      c`,
-}")).
-Eval vm_compute in ("<<<M3416>>>" ++ check (runes_of_ascii "// top
+    } 
 root
-    // c0
-packet P {
-    // c3
-char // c4
-c // c5
+
+    packet	charz  {  // packet A { u8 x, }
+  @tag(
+7	)
+MetaDataX
+    ,  _x 
+{
+	uint32 As
+
 ,
-    // c6
-u8 // c7
-x // c8
-, // c9
-} // c10
+    charz
+, }
+, len
+    {
+
+    int64
+	u128,
+    repeat 
+falsey
+	{
+	x_y_z@lengthOf(asx
+
+    ) 
+  //	t
+    // c
+    ,  // c
+  }
+	,
+repeatCount
+	{metadata@calculatedFrom(
+    ""\n"")
+`doc` ,
+Logon
+	Foo
+    // trailing space 
+  	// " ++ [128512]%N ++ runes_of_ascii " emoji
+    	,} // " ++ [27880; 37322]%N ++ runes_of_ascii "
+		,
+	float  rootA ,
+
+    } 
+,
+
+    } 
+// a // b
 ")).
-Eval vm_compute in ("<<<M4215>>>" ++ check (runes_of_ascii "packet lengthOf {
-    @calculatedFrom(""packet"")
-    @lengthOf(options1)
-    char[] int,
+Eval vm_compute in ("<<<M300>>>" ++ check (runes_of_ascii "
+root
+    packet pack
+{
+repeat u8x
+    `a\`
+    , char[ 3 ]MetaDataX `two words` ,
+    @leftPad ( ' '  ) zchar[ 4294967296 ]crc
+@calculatedFrom( """ ++ [128512]%N ++ runes_of_ascii """
+)
+    // c
+    ,  @lengthOf(
+    // " ++ [27880; 37322]%N ++ runes_of_ascii "
+    options1 )
+// " ++ [128512]%N ++ runes_of_ascii " emoji
+// " ++ [27880; 37322]%N ++ runes_of_ascii "
+@calculatedFrom( ""x y"" )repeat u{ repeat	x_y_z options1
+`two words` , zchar[3	]
+charz ,
+    Logon { u8	pack ,
+repeat zchar , i8i8{ repeat
+    u8
+    matchKey , }, } ,
+}, }")).
+Eval vm_compute in ("<<<M1886>>>" ++ check (runes_of_ascii "
+options{
+
+    As  =
+    char[
+
+    007  ]
+
+    ;
+
+_x // a // b
+		=
+
+1 ;
+	matchKey  = true ; 
+Logon // trailing space 
+	=  ' '  ; 
+stringy = /// triple
+	zchar[
+    007
+] 
+;
+    }root
+    packet
+MetaDataX
+
+{ //x
+match 
+leftPad
+as
+Logon
+{  255	:packetx[
+
+0123456789
+
+]  :
+	x_y_z , 10 
+// `tick` ""quote"" 'q'
+
+// a // b
+	:
+
+rootA }
+    ,
+
+    } ")).
+Eval vm_compute in ("<<<M96>>>" ++ check (runes_of_ascii "options{
+} packet /// triple
+chars {
+int64 i8i8
+    /// triple
+    @calculatedFrom( ""// no comment"" ) `line1
+line2` ,
+@calculatedFrom(
+""`tick`"" )
+    _x
+    `" ++ [28040; 24687; 31867; 22411]%N ++ runes_of_ascii "` , match
+float /// triple
+as BodyLength  {//
+""" ++ [28040; 24687]%N ++ runes_of_ascii """:
+    x_y_z [ 7 , 10
+    , """ ++ [233]%N ++ runes_of_ascii "t" ++ [233]%N ++ runes_of_ascii """	, 1 ,""x y"" , 3 ] :	i64_	,
+} , // a // b
+} packet
+uint8x { } // " ++ [27880; 37322]%N)).
+Eval vm_compute in ("<<<M92>>>" ++ check (runes_of_ascii "root
+    packet packetx {	uint32
+x_y_z@calculatedFrom( """ ++ [233]%N ++ runes_of_ascii "t" ++ [233]%N ++ runes_of_ascii """ ) ,@calculatedFrom(
+    ""{,}"" // trailing space 
+)	float calculatedFrom
+`line1
+line2` ,u16 Packet @lengthOf( f32a ) ,
+char[] o `tab	here`, @calculatedFrom( ""x y""  )T {
+repeat i64 chars , } ,
+i16  roots	,
+} // @lengthOf(")).
+Eval vm_compute in ("<<<M1477>>>" ++ check (runes_of_ascii "options {
+    LittleEndian = true;
+}
+packet Logon {
+    u8 x,
+    string user,
+}
+packet Logout {
+    u16 reason,
+}
+packet Empty {
+}
+root packet Frame {
+    u16 MsgType,
+    @lengthOf(Body) u8 BodyLen,
+    u8 flags,
+    Logon Body,
+    u32 trailer,
+}
+")).
+Eval vm_compute in ("<<<M1588>>>" ++ check (runes_of_ascii "packet float {
+    f64 float `u8 x,`,
+    // " ++ [27880; 37322]%N ++ runes_of_ascii "
+    //	t
+    @tag(1)
+    len tag `crlf
+        line`,
 }
 
-packet u8x {
-}")).
-Eval vm_compute in ("<<<M3347>>>" ++ check (runes_of_ascii "packet calculatedFrom { @tag( 4294967296 // c
-) u msg_type , char[ 3 ] crc @lengthOf( len ) `u8 x,` , }")).
-Eval vm_compute in ("<<<M750>>>" ++ check (runes_of_ascii "  packet i64_{ @leftPad (
-'0'
-//x
-// @lengthOf(
-)	u8 MetaDataX ,
-    i16
-// trailing space 
-//x
-Pad,
-}")).
-Eval vm_compute in ("<<<M3965>>>" ++ check (runes_of_ascii "// top
-MetaData _x {
-    // c2
-    zchar[4294967296] lengthOf `// not a comment`,
-    // c8
+root packet u {
+    o x `it's`,
+    @rightPad()
+    repeat zchar[00] Foo,
+    // trailing space 
 }
-// c9")).
-Eval vm_compute in ("<<<M2940>>>" ++ check (runes_of_ascii "packet A {
+
+root packet string_ {
+}")).
+Eval vm_compute in ("<<<M484>>>" ++ check (runes_of_ascii "options
+{
+matchKey = 42/// triple
+x='0' ;
+// packet A { u8 x, }
+//
+charz
+=
+// packet A { u8 x, }
+// trailing space 
+true  ; } MetaData BodyLength
+{
+uint8
+pack`doc`zchar[ 1]float ,  float32 x_y_z `` ,u32
+_x,i16 body  , }
+")).
+Eval vm_compute in ("<<<M549>>>" ++ check (runes_of_ascii "options
+{
+matchKey = 42/// triple
+x='0' ;
+// packet A { u8 x, }
+//
+charz
+=
+// packet A { u8 x, }
+// trailing space 
+true  ; } MetaData BodyLength
+{
+uint8
+pack,zchar[ 1]float ,  float32 x_y_z `` ,u32
+_x,match body  , }
+")).
+Eval vm_compute in ("<<<M413>>>" ++ check (runes_of_ascii "options
+{
+matchKey = 42/// triple
+=x'0' ;
+// packet A { u8 x, }
+//
+charz
+=
+// packet A { u8 x, }
+// trailing space 
+true  ; } MetaData BodyLength
+{
+uint8
+pack,zchar[ 1]float ,  float32 x_y_z `` ,u32
+_x,i16 body  , }
+")).
+Eval vm_compute in ("<<<M391>>>" ++ check (runes_of_ascii "options
+
+matchKey = 42/// triple
+x='0' ;
+// packet A { u8 x, }
+//
+charz
+=
+// packet A { u8 x, }
+// trailing space 
+true  ; } MetaData BodyLength
+{
+uint8
+pack,zchar[ 1]float ,  float32 x_y_z `` ,u32
+_x,i16 body  , }
+")).
+Eval vm_compute in ("<<<M464>>>" ++ check (runes_of_ascii "options
+{
+matchKey = 42/// triple
+x='0' ;
+// packet A { u8 x, }
+//
+charz
+=
+// packet A { u8 x, }
+// trailing space 
+true  ; } MetaData uint64
+{
+uint8
+pack,zchar[ 1]float ,  float32 x_y_z `` ,u32
+_x,i16 body  , }
+")).
+Eval vm_compute in ("<<<M169>>>" ++ check (runes_of_ascii "packet u128 {
+string
+T
+, }
+packet
+A { Pad { metadata f32a, match  i8i8
+    as //x
+crc { 7:a1,[ ""1"" ] :Foo	, 7
+    : metadata
+    // c
+    , 65535 : pack
+    ,	} , repeat char[] string_, }/// triple
+,
+}
+")).
+Eval vm_compute in ("<<<M697>>>" ++ check (runes_of_ascii "// c
+packet i64_ {	char[] calculatedFrom , MetaData packet
+trueish  {@calculatedFrom(
+""a\\"" ) o { i32 falsey@lengthOf( uint8x ),
+} , } // `tick` ""quote"" 'q'
+options {// c
+Z9_ = ' '//
+}
+")).
+Eval vm_compute in ("<<<M688>>>" ++ check (runes_of_ascii "// c
+packet i64_ \{	char[] calculatedFrom , } packet
+trueish  {@calculatedFrom(
+""a\\"" ) o { i32 falsey@lengthOf( uint8x ),
+} , } // `tick` ""quote"" 'q'
+options {// c
+Z9_ = ' '//
+}
+")).
+Eval vm_compute in ("<<<M714>>>" ++ check (runes_of_ascii "// c
+packet i64_ {	char[] calculatedFrom , } packet
+root  {@calculatedFrom(
+""a\\"" ) o { i32 falsey@lengthOf( uint8x ),
+} , } // `tick` ""quote"" 'q'
+options {// c
+Z9_ = ' '//
+}
+")).
+Eval vm_compute in ("<<<M370>>>" ++ check (runes_of_ascii "packet
+    rootA // packet A { u8 x, }
+{ tag
+`u8 x,`
+, char[]	o	,
+    i8i8	@lengthOf(
+    // @lengthOf(
+    stringy ) `// not a comment`
+    ,
+    // " ++ [128512]%N ++ runes_of_ascii " emoji
+    }
+")).
+Eval vm_compute in ("<<<M1799>>>" ++ check (runes_of_ascii "
+packet
+
+A
+{ u8
+    a,
+	}
+
+    packet B
+    {
+
+u16 
+b
+
+, } root
+packet
+    P
+{
+u8
+K
+    ,
+match
+	K as
+M  {
+1
+: 
+A,
+
+    1 :
+	B
+
+    , }
+,
+}")).
+Eval vm_compute in ("<<<M1735>>>" ++ check (runes_of_ascii "
+
+  packet
+A
+    { 
+match  k
+as 
+n	{
+
+    [
+
+""a"" , 
+22	, ""c c"" ,
+    4
+    , ""e""
+, 
+66 
+,
+""g"" , 8 ,""i"" ]
+:
+
+    B
+
+2
+
+    : C}
+,
+	}
+
+")).
+Eval vm_compute in ("<<<M1527>>>" ++ check (runes_of_ascii "
+
+  packet
+    A {
+	match
+k
+
+as
+    n {  [""a"" 
+,
+	""bb"",
+    007 ,""d""
+, ""e"" ,
+
+66 ,
+    ""g"" , 
+""h"",  9  ]
+
+    :
+	B 2 :
+
+C  },
+	} ")).
+Eval vm_compute in ("<<<M1800>>>" ++ check (runes_of_ascii "packet
+    Logon
+	{ @tag( 42 
+)
+	@rightPad  ( ' '
+
+    )
+
+@leftPad
+(
+
+)  repeat
+    trueish
+
+    {string
+T 
+, // c
+
+}
+	,} ")).
+Eval vm_compute in ("<<<M682>>>" ++ check (runes_of_ascii "// c
+packet i64_ {	char[] calculatedFrom , } packet
+trueish  {@calculatedFrom(
+""a\\"" ) o { i32 falsey@lengthOf( uint8x )")).
+Eval vm_compute in ("<<<M1543>>>" ++ check (runes_of_ascii "MetaData float {
+}
+
+options {
+    msg_type = ""a	b""
+    i8i8 = true
+    stringy = ""CRC32""
+}
+
+options {
+    len = ""\" ++ [233]%N ++ runes_of_ascii """
+}")).
+Eval vm_compute in ("<<<M906>>>" ++ check (runes_of_ascii "packet A {
   match k as n {
-    [""a"", ""bb"", ""c c"", ""d"", ""e"", ""f"", ""g"", ""h""] : B
+    [""a"", ""bb"", ""c c"", ""d"", ""e"", ""f"", ""g"", ""h"", ""i"", ""j"", ""k"", ""l""] : B
     2 : C
   },
 }")).
-Eval vm_compute in ("<<<M3223>>>" ++ check (runes_of_ascii "packet Logon { @tag(
+Eval vm_compute in ("<<<M606>>>" ++ check (runes_of_ascii "MetaData
+    // trailing space 
+    matchKey
+{ u64  // a // b
+,char[] lengthOf `// not a comment`
+    , //	t
+}")).
+Eval vm_compute in ("<<<M909>>>" ++ check (runes_of_ascii "packet A {
+  match k as n {
+    [""a"", 22, ""c c"", 4, ""e"", 66, ""g"", 8, ""i"", 10, ""k"", 12] : B,
+    2 : C
+  },
+}")).
+Eval vm_compute in ("<<<M1905>>>" ++ check (runes_of_ascii "packet o {
+    @tag(42)
+    repeat x {
+        // c
+        char[0123456789] i64_,
+    },
+}
+
+options {
+}")).
+Eval vm_compute in ("<<<M1278>>>" ++ check (runes_of_ascii "packet calculatedFrom { @tag( 4294967296 ) u msg_type , char[ 3 ] crc
 // c
-42 ) @rightPad ( ' ' ) @leftPad ( ) repeat trueish { string T , } , }")).
-Eval vm_compute in ("<<<M3255>>>" ++ check (runes_of_ascii "packet Logon { @tag( 42 ) @rightPad ( ' ' ) @leftPad ( ) repeat trueish { string T , }
-// c
-, }")).
+@lengthOf( len ) `u8 x,` , }")).
+Eval vm_compute in ("<<<M2036>>>" ++ check (runes_of_ascii "
+packet A
+	{
+match
+k as  n  {[
+	1, 
+22
+    , 007,
+
+4  ,5
+    ,
+
+66]
+    :
+
+    B
+    2
+:  C 
+},}")).
+Eval vm_compute in ("<<<M1898>>>" ++ check (runes_of_ascii "// c
+packet o {
+    @tag(42)
+    repeat x {
+        char[0123456789] i64_,
+    },
+}
+
+options {
+}")).
+Eval vm_compute in ("<<<M1156>>>" ++ check (runes_of_ascii "packet Logon { @tag( 42 ) @rightPad ( ' ' ) @leftPad ( ) repeat // c
+trueish { string T , } , }")).
 Eval vm_compute in ("<<<M270>>>" ++ check (runes_of_ascii "packet Pad { @calculatedFrom( ""CRC32"" ) @tag( 7 ) float32 u128 @calculatedFrom(""\n"")
     , }")).
-Eval vm_compute in ("<<<M3921>>>" ++ check (runes_of_ascii "options {
-    tag = char[00];
-}
+Eval vm_compute in ("<<<M1700>>>" ++ check (runes_of_ascii "packet
+A 
+{Inner  {
+u8	x
+    `a
+b` ,
+    Deep
+{
 
-root packet Header {
-    /// triple
-    repeat packetx,
+    u8
+y
+`a
+b`
+
+,
+
+    },
+	}	, }")).
+Eval vm_compute in ("<<<M386>>>" ++ check (runes_of_ascii "root packet SimpleMessage {
+	uint16 MsgType `" ++ [28040; 24687; 31867; 22411]%N ++ runes_of_ascii "`,
+	string JsonBody `Json" ++ [23383; 31526; 20018; 28040; 24687; 20307]%N ++ runes_of_ascii "`,
 }")).
-Eval vm_compute in ("<<<M1030>>>" ++ check (runes_of_ascii "packet i8i8 { } options
-    { MetaDataX =
-""it's""  asx = char[
-    65535
-    ]  ;
-    }")).
-Eval vm_compute in ("<<<M2031>>>" ++ check (runes_of_ascii "root
-packet crc
-    { f32a @calculatedFrom( """ ++ [233]%N ++ runes_of_ascii "t" ++ [233]%N ++ runes_of_ascii """ )
- $   `say ""hi""`, lengthOf `` ,  }")).
-Eval vm_compute in ("<<<M2008>>>" ++ check (runes_of_ascii "root
-packet crc
-    { f32a @calculatedFrom( """ ++ [233]%N ++ runes_of_ascii "t" ++ [233]%N ++ runes_of_ascii """ )
-    `say ""hi""`, `` lengthOf ,  }")).
-Eval vm_compute in ("<<<M1233>>>" ++ check (runes_of_ascii "
-MetaData
-    u128 {
-a1 Header , u
-i64_,
-    char[]
-    Logon ,
-    int64 crc , }
+Eval vm_compute in ("<<<M1206>>>" ++ check (runes_of_ascii "// c
+packet o { @tag( 42 ) repeat x { char[ 0123456789 ] i64_ , } , } options { }")).
+Eval vm_compute in ("<<<M1239>>>" ++ check (runes_of_ascii "packet o { @tag( 42 ) repeat x { char[ 0123456789 ] i64_ , } ,
+// c
+} options { }")).
+Eval vm_compute in ("<<<M1378>>>" ++ check (runes_of_ascii "root
+
+    packet P  { 
+repeat
+string
+
+    ss
+
+    ,	repeat 
+u16	ns
+
+,}
 ")).
-Eval vm_compute in ("<<<M2918>>>" ++ check (runes_of_ascii "packet A {
+Eval vm_compute in ("<<<M809>>>" ++ check (runes_of_ascii "packet A {
   match k as n {
-    [""a"", 22, ""c c"", 4, ""e"", 66] : B
+    [""a"", ""bb"", 007, ""d""] : B,
     2 : C
   },
 }")).
-Eval vm_compute in ("<<<M3322>>>" ++ check (runes_of_ascii "packet o { @tag( 42 ) repeat x { char[ 0123456789 ] i64_ , } // c
-, } options { }")).
-Eval vm_compute in ("<<<M411>>>" ++ check (runes_of_ascii "
-packet
-msg_type{ char[// trailing space 
-00 ] x_y_z@lengthOf(
-msg_type	) , }
-")).
-Eval vm_compute in ("<<<M2006>>>" ++ check (runes_of_ascii "root
-packet crc
-    { f32a @calculatedFrom( """ ++ [233]%N ++ runes_of_ascii "t" ++ [233]%N ++ runes_of_ascii """ )
-    `say ""hi""`,  `` ,  }")).
-Eval vm_compute in ("<<<M1211>>>" ++ check (runes_of_ascii "packet
-uint8x{ options1 @lengthOf(calculatedFrom
-)`crlf
-line`, // " ++ [27880; 37322]%N ++ runes_of_ascii "
-}
-")).
-Eval vm_compute in ("<<<M2891>>>" ++ check (runes_of_ascii "packet A {
-  match k as n {
-    [""a"", 22, ""c c"", 4] : B,
-    2 : C
-  },
-}")).
-Eval vm_compute in ("<<<M617>>>" ++ check (runes_of_ascii "  packet	Packet { repeat int16
-charz // a // b
-,zchar[	65535 ]	tag , }")).
-Eval vm_compute in ("<<<M3743>>>" ++ check (runes_of_ascii "options {
-    roots = ""packet"";
-    len = 0;
-    crc = zchar[65535];
-}")).
-Eval vm_compute in ("<<<M2201>>>" ++ check (runes_of_ascii "root
-    // `tick` ""quote"" 'q'
-    packet ` As { trueish Packet , }
-")).
-Eval vm_compute in ("<<<M1327>>>" ++ check (runes_of_ascii "MetaData Foo{ lengthOf tag /// triple
-,
-}
-// packet A { u8 x, }
-")).
-Eval vm_compute in ("<<<M2186>>>" ++ check (runes_of_ascii "root
-    // `tick` ""quote"" 'q'
-    packet As { trueish Packet , 
-")).
-Eval vm_compute in ("<<<M4026>>>" ++ check (runes_of_ascii "packet As {
-    @calculatedFrom(""{,}"")
-    lengthOf lengthOf,
-}")).
-Eval vm_compute in ("<<<M1763>>>" ++ check (runes_of_ascii "options { }options {  @calculatedFrom( // `tick` ""quote"" 'q'")).
-Eval vm_compute in ("<<<M1251>>>" ++ check (runes_of_ascii "MetaData stringy{
-    // " ++ [128512]%N ++ runes_of_ascii " emoji
-    options1 Header//
-,
-}")).
-Eval vm_compute in ("<<<M4110>>>" ++ check (runes_of_ascii "packet options1 {
-    @lengthOf(x_y_z)
-    falsey,
-}
-// c")).
-Eval vm_compute in ("<<<M1922>>>" ++ check (runes_of_ascii "
-packet	As { @calculatedFrom(//x
-""{,}""	lengthOf) , } 	 ")).
-Eval vm_compute in ("<<<M2407>>>" ++ check (runes_of_ascii "MetaData A
+Eval vm_compute in ("<<<M263>>>" ++ check (runes_of_ascii "packet zchar
 {
-i64
-chars	, match // `tick` ""quote"" 'q'")).
-Eval vm_compute in ("<<<M2412>>>" ++ check (runes_of_ascii "MetaData A
+    roots
+{ i64 f32a
+    `" ++ [28040; 24687; 31867; 22411]%N ++ runes_of_ascii "`	, float32 zchar , }
+, }")).
+Eval vm_compute in ("<<<M1321>>>" ++ check (runes_of_ascii "MetaData _x { zchar[ 4294967296 ] lengthOf // c
+`// not a comment` , }")).
+Eval vm_compute in ("<<<M1097>>>" ++ check (runes_of_ascii "packet A {
+    match k as n {
+        1 : B,
+        // c
+    },
+}")).
+Eval vm_compute in ("<<<M1346>>>" ++ check (runes_of_ascii "root 
+packet 
+P
+
 {
-< i64
-chars	, } // `tick` ""quote"" 'q'")).
-Eval vm_compute in ("<<<M503>>>" ++ check (runes_of_ascii "options{Foo
-    =
-    int8 ; As =
-    007 } //	t")).
-Eval vm_compute in ("<<<M2148>>>" ++ check (runes_of_ascii "MetaData x
-@lengthOf{// " ++ [128512]%N ++ runes_of_ascii " emoji
-i16 stringy , }")).
-Eval vm_compute in ("<<<M4221>>>" ++ check (runes_of_ascii "options {
-    a = 1;
+
+    hdr
+{ 
+u8
+a  ,}
+    ,
+u8
+x ,
+
 }
 
-options {
-    a = 1;
-}")).
-Eval vm_compute in ("<<<M2143>>>" ++ check (runes_of_ascii "MetaData x
-{// " ++ [128512]%N ++ runes_of_ascii " emoji
-i16 '\x01'stringy , }")).
-Eval vm_compute in ("<<<M780>>>" ++ check (runes_of_ascii "packet
-    trueish { matchKey  leftPad,
-}")).
-Eval vm_compute in ("<<<M3206>>>" ++ check (runes_of_ascii "MetaData zchar { zchar[ 3 ] Pad , } // c
 ")).
-Eval vm_compute in ("<<<M3190>>>" ++ check (runes_of_ascii "MetaData // c
-zchar { zchar[ 3 ] Pad , }")).
-Eval vm_compute in ("<<<M2145>>>" ++ check (runes_of_ascii "MetaData x
-{// " ++ [128512]%N ++ runes_of_ascii " emoji
-i16 " ++ [233]%N ++ runes_of_ascii "stringy , }")).
-Eval vm_compute in ("<<<M3056>>>" ++ check (runes_of_ascii "options {
-    a = ""\
-"";
-    b = ""\
-""
-}")).
-Eval vm_compute in ("<<<M2122>>>" ++ check (runes_of_ascii "MetaData x
-{// " ++ [128512]%N ++ runes_of_ascii " emoji
-i16 ""x y"" , }")).
-Eval vm_compute in ("<<<M2128>>>" ++ check (runes_of_ascii "MetaData x
-{// " ++ [128512]%N ++ runes_of_ascii " emoji
-i16 stringy")).
-Eval vm_compute in ("<<<M4495>>>" ++ check (runes_of_ascii "packet A {
+Eval vm_compute in ("<<<M1844>>>" ++ check (runes_of_ascii "root packet A {
     u8 x `a
-    b`,
+            b
+          c`,
 }")).
-Eval vm_compute in ("<<<M3044>>>" ++ check (runes_of_ascii "packet A {
-    u8 x `tab
-	x`,
-}")).
-Eval vm_compute in ("<<<M3103>>>" ++ check (runes_of_ascii "packet A {
- u8 x `d" ++ [8233]%N ++ runes_of_ascii "`, // c" ++ [8233]%N ++ runes_of_ascii "
-}")).
-Eval vm_compute in ("<<<M1064>>>" ++ check (runes_of_ascii "
-root packet x_y_z	{ } //	t")).
-Eval vm_compute in ("<<<M2640>>>" ++ check (runes_of_ascii "packet A { } x packet B { }")).
-Eval vm_compute in ("<<<M2591>>>" ++ check (runes_of_ascii "packet A { u8 x @tag(1), }")).
-Eval vm_compute in ("<<<M3165>>>" ++ check (runes_of_ascii "options { a = 1 // a
- ; }")).
-Eval vm_compute in ("<<<M3271>>>" ++ check (runes_of_ascii "options // c
-{ u8x = 3 }")).
-Eval vm_compute in ("<<<M2577>>>" ++ check (runes_of_ascii "packet A { char[ 3 y, }")).
-Eval vm_compute in ("<<<M2728>>>" ++ check (runes_of_ascii "zJCp5x,_`*Ps&{Uwa3JY4N")).
-Eval vm_compute in ("<<<M182>>>" ++ check (runes_of_ascii "root packet As { }
+Eval vm_compute in ("<<<M605>>>" ++ check (runes_of_ascii "MetaData
+    // trailing space 
+    matchKey
+{")).
+Eval vm_compute in ("<<<M1331>>>" ++ check (runes_of_ascii "
+root packet	P {
+char  c
+, u8 x 
+, 
+} ")).
+Eval vm_compute in ("<<<M1562>>>" ++ check (runes_of_ascii "packet
+	A	{
+
+u8
+
+    x 
+`a
+b`, 
+}
 
 ")).
-Eval vm_compute in ("<<<M2629>>>" ++ check (runes_of_ascii "packet A { } packet")).
-Eval vm_compute in ("<<<M2659>>>" ++ check (runes_of_ascii "options { a = 1, }")).
-Eval vm_compute in ("<<<M3117>>>" ++ check (runes_of_ascii "// c" ++ [11]%N ++ runes_of_ascii "
+Eval vm_compute in ("<<<M1780>>>" ++ check (runes_of_ascii "  root
+packet P  { string 
+s
+	,}
+")).
+Eval vm_compute in ("<<<M328>>>" ++ check (runes_of_ascii "root packet roots
+//x
+// " ++ [27880; 37322]%N ++ runes_of_ascii "
+{}")).
+Eval vm_compute in ("<<<M1906>>>" ++ check (runes_of_ascii "
+options
+
+{zchar= false
+
+;}")).
+Eval vm_compute in ("<<<M1187>>>" ++ check (runes_of_ascii "options { // c
+u8x = 3 }")).
+Eval vm_compute in ("<<<M1567>>>" ++ check (runes_of_ascii "packet A {
+    // a
+}")).
+Eval vm_compute in ("<<<M996>>>" ++ check (runes_of_ascii "// c" ++ [5760]%N ++ runes_of_ascii "
 packet A {
 }")).
-Eval vm_compute in ("<<<M2819>>>" ++ check (runes_of_ascii "1c9fP,9u8%sQZ4{.)")).
-Eval vm_compute in ("<<<M2834>>>" ++ check (runes_of_ascii "lUfoS)U1$-NNWF,V")).
-Eval vm_compute in ("<<<M2730>>>" ++ check (runes_of_ascii "@tag( ) uint64")).
-Eval vm_compute in ("<<<M1423>>>" ++ check (runes_of_ascii "root packet")).
-Eval vm_compute in ("<<<M4454>>>" ++ check (runes_of_ascii "
-// c" ++ [12]%N ++ runes_of_ascii "
- 
-")).
-Eval vm_compute in ("<<<M984>>>" ++ check (runes_of_ascii "
- // c")).
-Eval vm_compute in ("<<<M2439>>>" ++ check (runes_of_ascii "uint8")).
-Eval vm_compute in ("<<<M3135>>>" ++ check (runes_of_ascii "// c" ++ [65279]%N)).
-Eval vm_compute in ("<<<M454>>>" ++ check (runes_of_ascii "  
-")).
-Eval vm_compute in ("<<<M2686>>>" ++ check (runes_of_ascii " " ++ [12]%N ++ runes_of_ascii " ")).
-Eval vm_compute in ("<<<M2494>>>" ++ check (runes_of_ascii "/")).
+Eval vm_compute in ("<<<M768>>>" ++ check ([65533; 65533]%N ++ runes_of_ascii "Oa" ++ [65533]%N ++ runes_of_ascii "?" ++ [65533; 65533; 65533; 65533]%N ++ runes_of_ascii "B" ++ [65533]%N ++ runes_of_ascii "'" ++ [65533]%N ++ runes_of_ascii "f" ++ [65533]%N ++ runes_of_ascii "l")).
+Eval vm_compute in ("<<<M749>>>" ++ check (runes_of_ascii ":9,Tf#g ""r%g_")).
+Eval vm_compute in ("<<<M999>>>" ++ check (runes_of_ascii "// c" ++ [8192]%N)).
